@@ -134,6 +134,17 @@ def evalPath (nested : List (List NJ)) (sel : List Nat) (comps : List Comp) : CM
       | .error e => .error e
       | .ok vs => .ok (i, vs)) sel
 
+/-- the nested JSON rendering of every subset of a wired message: subset `i` is rendered from `trees[i]` with the
+    flat lists of subset `i` (for compressed data every `trees[i]` is the shared tree) -/
+def nestedOf (m : QMsg) : CM (List (List NJ)) :=
+  mapE (fun p => renderNested p.1 p.2) (m.outs.zip m.trees)
+
+/-- the decidable shape condition of `C16_query_eq_eval`: in every subset, every replication node holds
+    `n_repeats * n_members` member nodes, `n_repeats` being the number the renderer uses (`repsOKList`).
+    The wiring pass establishes it (`C16_wire_shape`); the driver evaluates it on every case. -/
+def shapeOK (m : QMsg) : Bool :=
+  (m.outs.zip m.trees).all fun p => repsOKList p.1 p.2
+
 end Bufr.Spec
 
 namespace Bufr.Spec
